@@ -106,6 +106,43 @@ fn explore(api: &Api, seed: u64, cx: &mut Cx) {
             }
         }
     }
+    // Curve25519 only: every 32-byte string is a u-coordinate, so Diffie-Hellman must equal X25519 (RFC 7748) for
+    // ARBITRARY peer values - points on the twist, points with a small-order component - not only for honest public keys
+    if g == crate::groups::G::X25519 {
+        let mut us: Vec<(String, Vec<u8>)> = (2u64..=12).map(|u| (format!("u={}", u), crate::groups::small_int(u, 32, false))).collect();
+        us.push(("rfc7748-5.2-vector1-u".into(), hex::decode("e6db6867583030db3594c1a424b15f7c726624ec26b3353b10a903a6d0ab1c4c").unwrap()));
+        us.push(("rfc7748-5.2-vector2-u".into(), hex::decode("e5210f12786811d3f4b7959d0538ae2c31dbe7106fc03c3efc4cd549c715a493").unwrap()));
+        for i in 0..12 {
+            let mut u = vec![0u8; 32];
+            Tape::seeded(seed, &format!("c19/u/{}", i)).fill_bytes(&mut u);
+            us.push((format!("tape-u{}", i), u));
+        }
+        let mut ks = keys.clone();
+        ks.push(("rfc7748-5.2-vector1-k(clamped)".into(), {
+            let mut k = hex::decode("a546e36bf0527c9d3b16154b82465edd62144c0ac1fc5a18506a2244ba449ac4").unwrap();
+            k[0] &= 248;
+            k[31] &= 127;
+            k[31] |= 64;
+            k
+        }));
+        for (un, u) in &us {
+            if !g.elem_valid(u) {
+                continue;
+            }
+            for (kn, k) in &ks {
+                cx.begin_case(json!({"check": "X25519 with an arbitrary peer u-coordinate", "key": kn, "u": un, "u_bytes": hex::encode(u)}));
+                cx.state(&("x25519", k, u));
+                cx.edges += 1;
+                cx.path();
+                let want = sp.ke.dh(k, u);
+                match api.ke_dh(k, u) {
+                    Ok(got) if got == want => cx.outcome("x25519-matches-rfc7748"),
+                    Ok(_) => cx.violate("dh/not-x25519", format!("Diffie-Hellman of key {} with peer value {} differs from X25519 (RFC 7748)", kn, un)),
+                    Err(e) => cx.violate("dh/rejects-valid-u", format!("a peer value that is not of small order is refused: {:?}", e)),
+                }
+            }
+        }
+    }
     cx.sample(json!({"suite": api.name(), "ke_group": g.name(), "keys": keys.iter().map(|k| k.0.clone()).collect::<Vec<_>>(), "seeds": seeds.iter().map(|k| k.0.clone()).collect::<Vec<_>>()}));
 }
 
